@@ -6,6 +6,8 @@
 mod util;
 
 #[cfg(kani)]
+mod c08;
+#[cfg(kani)]
 mod c17;
 
 /// Build probe used by `./check --setup` (compiles /repo with the hooks on); not an obligation.
